@@ -395,6 +395,22 @@ func (v *Verifier) verifyFunc(ctr *Contract, fn *ssa.Function) (err error) {
 		st.assume(penv.evalBool(pi.Expr))
 	}
 	v.curReplay = st.flattenVars(fr.vars)
+	// entry values of the ghost variables the contract talks about are part of a counterexample
+	{
+		gv := map[string]Value{}
+		for g, val := range st.ghost {
+			if _, isScalar := val.(Scalar); !isScalar || strings.ContainsAny(g, ":.") {
+				continue
+			}
+			for _, cl := range ctr.Clauses {
+				if strings.Contains(cl.Src, "ghost."+g) {
+					gv["ghost."+g] = val
+					break
+				}
+			}
+		}
+		v.curReplay = append(v.curReplay, st.flattenVars(gv)...)
+	}
 	v.verifying = true
 	// vacuity: the precondition must be satisfiable
 	vo := &Obligation{Prop: v.prop, Func: v.curFn, Clause: "requires-sat", Kind: "vacuity", Goal: False, ExpectSat: true, What: "precondition satisfiable"}
